@@ -231,7 +231,12 @@ class _LibrationDynamicsService(_DynamicsServiceBase):
         def _factory() -> CenterManifold:
             return CenterManifold(self.domain_obj, degree)
         
-        return self.get_or_create(cache_key, _factory)
+        center_manifold = self.get_or_create(cache_key, _factory)
+        if center_manifold.degree != degree:
+            # The cached object was re-targeted by its user (cm.degree = ...): it is no
+            # longer the centre manifold of this degree, hand out a new one
+            center_manifold = self._cache.set(cache_key, _factory())
+        return center_manifold
 
     def hamiltonian(self, max_deg: int, form: str = "center_manifold_real") -> Hamiltonian:
         """
